@@ -55,9 +55,15 @@ CONFIGS = [
     ('synirr', 'hand_made', {'start': 'explicit', 'depth': '30', 'timeline': '1', 'patch': '1'}),
     ('synwild', 'hand_made', {'start': 'explicit', 'depth': '30', 'timeline': '1', 'patch': '1', 'mup': '7'}),
     ('tears', 'hand_made', {'start': 'month', 'depth': '30', 'timeline': '1', 'patch': '1'}),
+    # a start written with a UTC offset (the same instant as the explicit one)
+    ('bbb', 'hand_made', {'start': 'explicit+01:00', 'depth': '30', 'timeline': '1', 'patch': '1'}),
+    # options that come from the defaults stored with the stream, not from the query
+    ('synnot', 'hand_made', {'start': 'explicit', 'timeline': '1', 'patch': '1',
+                             '_stream_defaults': {'minimumUpdatePeriod': 6, 'timeShiftBufferDepth': 20}}),
 ]
 STARTS = {
     'explicit': [c01.AST0 + TD(seconds=45), c01.AST0 + TD(seconds=3 * 40 + 7.5), c01.AST0 + TD(seconds=97391 - 20)],
+    'explicit+01:00': [c01.AST0 + TD(seconds=45), c01.AST0 + TD(seconds=3 * 40 + 7.5)],
     'epoch': [c01.NOON + TD(seconds=3.5)],
     'today': [datetime.datetime(2024, 3, 1, 23, 59, 30, tzinfo=UTC), datetime.datetime(2024, 3, 2, 0, 0, 30, tzinfo=UTC)],
     'month': [datetime.datetime(2024, 3, 1, 23, 59, 50, tzinfo=UTC), c01.NOON],
@@ -103,6 +109,15 @@ def explore(item):
     w.begin_item()
     acc = core.Acc()
     q = dict(opts)
+    stream_defaults = q.pop('_stream_defaults', None)
+    if stream_defaults:
+        with w.appctx():
+            sm = w.models.Stream.get(directory=stream)
+            sm.defaults = dict(stream_defaults)
+            w.models.db.session.commit()
+            w.models.db.session.remove()
+        opts = dict(opts, depth=str(stream_defaults.get('timeShiftBufferDepth', 30)),
+                    mup=str(stream_defaults.get('minimumUpdatePeriod', 0)))
     q['start'] = c01.start_value(q['start'])
     url = crawl.manifest_url('live', stream, template, q)
     st = crawl.Stored.fixture(stream)
@@ -151,6 +166,8 @@ def explore(item):
         frontier = nxt
     acc.count('traces', len(seen))
     acc.notes.setdefault('instants', {})[f'{ci}/{si}'] = len(seen)
+    if stream_defaults:
+        w.reset()
     return acc
 
 
@@ -221,7 +238,14 @@ def check_edge(w, acc, ci, url, T1, T2, d1, d2, dl):
         except xmlpatch.PatchError as e:
             bad('patch-does-not-apply', str(e)[:160])
             return
-        if patched.get('publishTime') != d2.root.get('publishTime'):
+        def same_instant(a, b):
+            if a == b:
+                return True
+            try:
+                return mpd.dt(a) == mpd.dt(b)       # the same instant may be written in another UTC offset
+            except Exception:
+                return False
+        if not same_instant(patched.get('publishTime'), d2.root.get('publishTime')):
             bad('patched-publishTime', f'patched document has publishTime {patched.get("publishTime")!r}, the manifest '
                 f'served at T2 {d2.root.get("publishTime")!r}')
         if patch_location(patched) != patch_location(d2.root):
